@@ -30,7 +30,8 @@ EXTENDS Autodiscover, TLC, Json, IOUtils
 CONSTANTS VarIdx, SfxIdx, Codes, SmallCodes, MaxEntries,
           CfgSfxIdx,       \* suffixes of the "cfg" family ({} switches it off)
           SpelledCfgSfxIdx, \* suffixes of the "cfg" scenarios with spellings
-          LightVarIdx, LightCodes  \* variants whose trees are built from LightCodes only
+          LightVarIdx, LightCodes, \* variants whose trees are built from LightCodes only,
+          LightSfxIdx              \* and their suffixes
 
 DirPool == << <<>>, <<"pkg">>, <<"pkg", "sub">>, <<"_priv">>, <<".hid">>, <<"pkg", "_in">>, <<"pkg", ".h">>,
               <<"d.ot">>, <<"__pycache__">>, <<"a-b", "c">>, <<"p_q">> >>
@@ -181,6 +182,7 @@ TheTrees == IF IsCfg THEN [c \in DOMAIN Cands |-> CfgTree] ELSE <<Tree>>
 TheCfg == IF IsCfg THEN ScnCfg(scn) ELSE Variants[vid].cfg
 
 MCInit == \/ vid \in VarIdx /\ sid \in SfxIdx /\ codes = {} /\ scn = NoScn
+             /\ (vid \in LightVarIdx => sid \in LightSfxIdx)
           \/ vid = 0 /\ sid \in CfgSfxIdx /\ codes = {} /\ scn \in Scns
              /\ (SpelledScn(scn) => sid \in SpelledCfgSfxIdx)
 Add(c) == /\ ~IsCfg
